@@ -273,7 +273,7 @@ def install_lock_patch(kdir=None):
 
 class SimThread:
     __slots__ = ('tid', 'fn', 'sem', 'state', 'thread', 'op', 'op_steps', 'fault', 'waiting',
-                 'prio', 'exc', 'raise_deadlock')
+                 'prio', 'exc', 'raise_deadlock', 'atomic')
 
     def __init__(self, tid, fn):
         self.tid = tid
@@ -288,6 +288,7 @@ class SimThread:
         self.prio = 0
         self.exc = None
         self.raise_deadlock = False
+        self.atomic = 0              # > 0 while the harness itself calls kingdon accessors: no pre-emption
 
     def __repr__(self):
         return f'T{self.tid}'
@@ -468,6 +469,8 @@ class Sim:
 
     # ---- the pre-emption point -------------------------------------------------------
     def step(self, t, code, line):
+        if t.atomic:
+            return
         if self.abort is not None:
             raise SimAbort()
         self.nsteps += 1
